@@ -47,11 +47,13 @@ Definition bw_write (cap : nat) (w : bw) (p : str) : bw :=
 
 (* ------------------------------------------------------------------ one Write on the pattern writer *)
 (* patternFlushWriter.Write: w.w.Write(p) first, then w.f.Flush() if a pattern was seen;
-   both w.w and w.f are the connection's bufio.Writer (wr_flush_writer_over_conn_buffer) *)
+   (flush_after_write, extracted); both w.w and w.f are the connection's bufio.Writer (pinned
+   arms of the switch in writeResponse) *)
 Definition wstep (cap : nat) (pats : list pat) (s : N * bw) (w : str) : N * bw :=
-  let b1 := bw_write cap (snd s) w in
   let (f, l) := flush_step pats (fst s) w in
-  (l, if f then bw_flush b1 else b1).
+  if flush_after_write
+  then (l, let b1 := bw_write cap (snd s) w in if f then bw_flush b1 else b1)
+  else (l, bw_write cap (if f then bw_flush (snd s) else snd s) w).
 Definition wsteps (cap : nat) (pats : list pat) (s : N * bw) (ws : list str) : N * bw :=
   fold_left (wstep cap pats) ws s.
 
